@@ -357,6 +357,7 @@ pub mod ant_protocol {
     }
 }
 pub mod ant_networking {
+    pub use super::Network;
     pub use ::ant_networking::{GetRecordCfg, GetRecordError, NetworkError};
 }
 
@@ -536,6 +537,8 @@ pub struct NetInner {
     pub payments_notified: Cell<usize>,
     pub fetch_completed: RefCell<Vec<RecordKey>>,
     pub put_count: Cell<usize>,
+    /// quotes of other nodes handed down for comparison with the collected history
+    pub handed_to_history_check: RefCell<Vec<(PeerId, crate::data_payments::PaymentQuote)>>,
 }
 #[derive(Clone)]
 pub struct Network {
@@ -558,11 +561,28 @@ impl Network {
                 payments_notified: Cell::new(0),
                 fetch_completed: RefCell::new(vec![]),
                 put_count: Cell::new(0),
+                handed_to_history_check: RefCell::new(vec![]),
             }),
         }
     }
     pub fn peer_id(&self) -> PeerId {
         self.inner.self_id
+    }
+    /// the node's keypair in the ideal scheme: key number = the last byte of its peer id
+    fn key_no(&self) -> u8 {
+        *self.inner.self_id.to_bytes().last().unwrap()
+    }
+    pub fn sign(&self, msg: &[u8]) -> NResult<Vec<u8>> {
+        Ok(libp2p::identity::ideal_sign(self.key_no(), msg))
+    }
+    pub fn verify(&self, msg: &[u8], sig: &[u8]) -> bool {
+        libp2p::identity::PublicKey(self.key_no()).verify(msg, sig)
+    }
+    pub fn get_pub_key(&self) -> Vec<u8> {
+        libp2p::identity::PublicKey(self.key_no()).encode_protobuf()
+    }
+    pub fn historical_verify_quotes(&self, quotes: Vec<(PeerId, crate::data_payments::PaymentQuote)>) {
+        self.inner.handed_to_history_check.borrow_mut().extend(quotes);
     }
     async fn round_trip<R>(&self, f: impl FnOnce(&NetInner) -> R) -> R {
         // a query is a request/response through the swarm driver's channel: its effect (the read)
